@@ -40,6 +40,7 @@ type Op struct {
 	Arg     string    `json:"arg,omitempty"`
 	Rev     bool      `json:"rev,omitempty"` // destination struct types declare their fields in reverse order
 	IO      *IOSpec   `json:"io,omitempty"`
+	Reenter int       `json:"reenter,omitempty"` // the k-th callback of this call runs two complete executions of other schemas before it returns
 }
 
 type World struct {
@@ -105,6 +106,8 @@ type Result struct {
 	Visits   []simrt.Visit `json:"-"`
 	FmtSeen  []string      `json:"fmt_seen,omitempty"`
 	Steps    int64         `json:"-"`
+	Nested   int           `json:"-"`
+	NestBad  string        `json:"-"`
 
 	raw     any
 	data    any // what was handed to Parse as data (a Go value or a front end's factory)
@@ -429,7 +432,7 @@ func panicString(p any) string {
 func (x *X) Exec(tag string, op *Op) *Result {
 	b := x.Built[op.Schema]
 	res := &Result{}
-	rec := &OpRec{RootNode: b.N, PanicAt: op.PanicAt, ErrAt: op.ErrAt, Validate: op.Kind == "validate"}
+	rec := &OpRec{RootNode: b.N, PanicAt: op.PanicAt, ErrAt: op.ErrAt, Validate: op.Kind == "validate", Reenter: op.Reenter}
 	rec.CtxKeys = x.ctxKeys()
 	dest := reflect.New(b.typ(op.Rev))
 	var data any
@@ -480,6 +483,7 @@ func (x *X) Exec(tag string, op *Op) *Result {
 	res.Calls = rec.Calls
 	res.FmtSeen = rec.FmtSeen
 	res.Injected = rec.Injected
+	res.Nested, res.NestBad = rec.Nested, rec.NestBad
 	res.Dest = scrubAddr(CanonV(dest.Elem()))
 	for _, f := range rec.Injected {
 		x.Faults[f]++
